@@ -8,7 +8,7 @@ EXPLANATION = ("From lock_ref_and_apply_change's MIR the table (Delete|Update) x
                "stored} is extracted path-sensitively in those three discriminants, once assuming every Target comparison says `equal` and once `different`, "
                "and must equal the compare-and-swap specification: an edit whose expectation is not met can neither write the lock file nor keep the "
                "lock. In prepare_inner the edits are published to self.updates only after the locking loop, and every lock an edit holds is a gix_lock "
-               "File/Marker whose Drop removes it (no mem::forget of locks in gix-ref). pre_process (the split of deref edits) dominates the packed-refs decisions and the locking loop; the name filter of the packed transaction also decides the suppressed loose write, the parked lock and the loose-file removal; both arms of the split move the expectation to the referent. Equivalence with a model over whole histories is not decided.")
+               "File/Marker whose Drop removes it (no mem::forget of locks in gix-ref). pre_process (the split of deref edits) dominates the packed-refs decisions and the locking loop; the name filter of the packed transaction also decides the suppressed loose write, the parked lock and the loose-file removal; both arms of the split move the expectation to the referent. The cleanup boundary of reference locks must lie inside refs/ (known finding F49). Equivalence with a model over whole histories is not decided.")
 F = r"transaction::prepare::<impl gix_ref::store_impl::file::Transaction<'_, '_>>::lock_ref_and_apply_change$"
 PV = ["Any", "MustExist", "MustNotExist", "MustExistAndMatch", "ExistingMustMatch"]
 # (may proceed if compared values are equal, may proceed if they differ)
